@@ -6,7 +6,7 @@
         an or qu co if el cm se ar as *)
 let err_name = function
   | EDivZero -> "DivZero" | EDiffComm -> "DiffComm" | ENullAmt -> "NullAmt"
-  | EBadOp -> "BadOp" | EOutOfFuel -> "Fuel" | _ -> "Other"
+  | EBadOp -> "BadOp" | EOutOfFuel -> "Fuel" | ETimelogNoIn -> "OrderDependent" | _ -> "Other"
 
 let comm_of_atom a = if a = "-" then None else Some (str_of_hex a)
 
@@ -83,7 +83,8 @@ let show_run cp toks =
       | Ok (Some (XFun _)) -> "F:"
       | Err e -> "E:" ^ err_name e) in
   let r1 = one false and r2 = one true in
-  if r1 = r2 then r1 else "ORDER-DEPENDENT " ^ r1 ^ " | " ^ r2
+  if r1 = "E:OrderDependent" || r2 = "E:OrderDependent" then "ORDER-DEPENDENT hash order of a balance"
+  else if r1 = r2 then r1 else "ORDER-DEPENDENT " ^ r1 ^ " | " ^ r2
 
 let handle line =
   match parse_sexp line with
